@@ -68,3 +68,22 @@ func VerifHarness_C05_PNG() {
 	data, perr := md.ICCProfileData()
 	verifAssert(verifAnd(data == nil, perr == nil), "PNG without iCCP: profile must be (nil, nil)")
 }
+
+// VerifHarness_C05_PNG_ICC: the basic fields of a PNG that carries an iCCP chunk (profile
+// names of 1, 78 and the maximum 79 bytes; with or without an ancillary chunk before it)
+// are the IHDR's, whatever the profile turns out to be.
+func VerifHarness_C05_PNG_ICC() {
+	VerifInstallZlibStub()
+	nameLen := []int{1, 78, 79}[verifChoice(3)]
+	in, ihdr, _, _ := VerifBuildPNGICC(verifChoice(2), nameLen, 8)
+	md, _, err := Load(bytes.NewReader(in))
+	verifAssert(verifAnd(err == nil, md != nil), "well-formed PNG with iCCP rejected")
+	if err != nil || md == nil {
+		return
+	}
+	verifReach("png-icc-parsed")
+	verifAssert(md.PixelWidth == verifBE32(ihdr[0:4]), "PNG+iCCP PixelWidth = BE32 IHDR+0")
+	verifAssert(md.PixelHeight == verifBE32(ihdr[4:8]), "PNG+iCCP PixelHeight = BE32 IHDR+4")
+	verifAssert(md.BitsPerComponent == uint32(ihdr[8]), "PNG+iCCP BitsPerComponent = IHDR+8")
+	verifAssert(md.Format == "PNG", "PNG+iCCP Format = PNG")
+}
